@@ -48,6 +48,7 @@ func (b *backend) Watch(ctx context.Context, prefix string, revision uint64) (<-
 	}
 
 	result := make(chan []*proto.Event, resultChanLength)
+	verifYield("watch.subscribed")
 
 	// include the current revision in list
 	if revision == 0 {
@@ -56,6 +57,7 @@ func (b *backend) Watch(ctx context.Context, prefix string, revision uint64) (<-
 	}
 
 	ret := b.watchCache.FindEvents(revision)
+	verifYield("watch.cache_read")
 
 	if ret.empty {
 		if revision > b.tso.GetRevision() {
